@@ -1,4 +1,5 @@
 CONSTANT Want = {"c19"}
+CONSTANT Conform = FALSE
 INIT TraceInit
 NEXT TraceNext
 INVARIANTS C19_RegularParts
